@@ -384,6 +384,8 @@ class CallMixin(ExprMixin):
             return [(st, V(INT, z3.If(a.t < T.intval(0).t, -a.t, a.t)))]
         if n == "int" and len(args) == 1 and args[0].ty in (INT, BOOL):
             return [(st, T.coerce(args[0], INT))]
+        if n == "int" and len(args) == 1 and args[0].ty == REAL:
+            return [(st, self.fresh(INT, "int_of_real"))]          # truncation of a float: value not tracked
         if n == "bool" and len(args) == 1:
             return [(st, V(BOOL, self.truthy(st, args[0])))]
         if n in ("list", "set", "frozenset", "dict", "tuple"):
@@ -894,6 +896,9 @@ class CallMixin(ExprMixin):
         if cm.ghost:
             for g, expr in cm.ghost.items():
                 st.ghost[g] = self.spec_eval(expr, post_st, old=call_st)
+        if cm.havoc_all and getattr(self, "awaited_call", None) is node:
+            # `await f(...)` with a suspending model: the model's havoc is the suspension, its post holds on resumption
+            return [(st, V(PYOBJ, PyThing("awaited", value=res)))]
         return [(st, res)]
 
     def inline_call(self, st, cls, name, recv, args, kw, node):
